@@ -312,6 +312,14 @@ LONG_IN = [1023, 1024, 1025, 1500, 2047, 2048, 2049, 2600, 3001]
 @st.composite
 def long_case(draw, tier="quick"):
     m = draw(st.sampled_from(LONG_IN))
+    if draw(st.integers(0, 3)) == 0:
+        # a short input onto a very long output axis (more than 2^14 = 16384 output samples, sizes of no special form)
+        m = draw(st.integers(8, 60))
+        M = draw(st.integers(16385, 40000))
+        return {"m": m, "M": M, "thin_in": draw(st.integers(1, 3)), "thin_out": draw(st.integers(1, 5)),
+                "axis": draw(st.integers(0, 1)), "alpha_thin": draw(gen.signed_log(1e-2, 0.4)),
+                "seed": draw(st.integers(0, 2**31 - 1)), "out": draw(st.sampled_from(["none", "none", "dirty"])),
+                "layout": draw(gen.layouts()), "unitary": draw(st.booleans())}
     if draw(st.integers(0, 3)):
         # kernel element count M*m aimed between 2^22 and 9e6, either parity and residue of M
         M = max(m, draw(st.integers(2**22 + 1, 9_000_000)) // m + draw(st.integers(0, 2)))
@@ -354,6 +362,7 @@ def long(case, ctx):
     if case["axis"] == 1:
         f, ref, alpha, shape = f.T, ref.T, alpha[::-1], shape[::-1]
     f = gen.relayout(np.ascontiguousarray(f), case["layout"])
+    ctx.tag("output>16384" if M > 16384 else None)
     ctx.tag(f"axis:{case['axis']}", "kernel>4M" if M * m > 2**22 else "kernel<=4M", "M_odd" if M % 2 else "M_even",
             "m_odd" if m % 2 else "m_even", "out:" + case["out"], "M=m" if M == m else "M>m")
     ctx.nontrivial_if(True)
@@ -361,7 +370,9 @@ def long(case, ctx):
     if case["out"] == "dirty":
         kw["out"] = np.full(tuple(shape), 7.0 + 3j)
     with lentil_call("C01.long", f"dft2(input {f.shape}, alpha {alpha}, shape {shape})"):
-        F = fourier.dft2(f, tuple(alpha), shape=tuple(shape), unitary=False, **kw)
+        F = fourier.dft2(f, tuple(alpha), shape=tuple(shape), unitary=bool(case.get("unitary", False)), **kw)
+    if case.get("unitary"):
+        ref = ref * np.sqrt(abs(alpha[0] * alpha[1]))
     tol = 64 * np.finfo(float).eps * (1 + np.pi * m) * float(np.sum(np.abs(f))) / min(f.shape)
     if F.shape != tuple(shape):
         raise Violation("C01.long.shape", f"output shape {F.shape}, requested {shape}")
